@@ -1,7 +1,7 @@
 (* FiltChainAddr.v — retrieval for paths with existence filters, from the path text: the path `$` steps returns exactly
    the values its steps reach, where a filter step [?(@ inner)] keeps, of the elements of an array (index order) or
    the members of an object (ascending key order), those from which the inner steps reach at least one value. *)
-From JP Require Import Peg Grammar Slice Text Tree Actions Json Eval WF Spec SortFacts EvalInv1 EvalInv4 EvalTop EndToEnd Codec KeyDefs KeyParse IdxParse SliceParse UnionParse WildParse RecParse ChainParse SpacePath FunParse AggParse FiltParse CmpParse NegFilt FiltChain ChainAddr FunAddr AggAddr FiltAddr CmpAddr.
+From JP Require Import Peg Grammar Slice Text Tree Actions Json Eval WF Spec SortFacts EvalInv1 EvalInv4 EvalTop EndToEnd Codec KeyDefs KeyParse IdxParse SliceParse UnionParse WildParse RecParse ChainParse SpacePath FunParse AggParse FiltParse CmpParse NegFilt QueryParse FiltChain ChainAddr FunAddr AggAddr FiltAddr CmpAddr QueryAddr.
 From Coq Require Import Lia.
 Open Scope list_scope.
 
@@ -26,6 +26,7 @@ Section FiltChainAddr.
     | FE i => navf i lv
     | FC i o lit => navp (ctest i o (lit_num parse_float lit)) lv
     | FN i => navp (fun x => negb (reaches i x)) lv
+    | FQ d => navp (dnf_test parse_float d) lv
     end.
   Fixpoint nav_allf (l : list fstep) (lv : list pstep * value) : list (list pstep * value) :=
     match l with [] => [lv] | x :: r => flat_map (nav_allf r) (nav1f x lv) end.
@@ -36,12 +37,13 @@ Section FiltChainAddr.
     | FE i => Node (filt_kind cfg i) b2 next
     | FC i o lit => Node (cmp_kind cfg i o (lit_num parse_float lit)) b2 next
     | FN i => Node (neg_kind cfg i) b2 next
+    | FQ d => Node (fq_kind cfg parse_float d) b2 next
     end.
 
   Lemma sp_fseg x b1 b2 next root p v : fstep_ok x = true -> small v ->
     sp (fseg x b1 b2 next) root (Some p, v) = flat_map (fwd b2 next root) (nav1f x (p, v)).
   Proof.
-    intros Hs Hsm. destruct x as [y|i|i o lit|i]; cbn [fseg nav1f fstep_ok] in *; [| | |apply (sp_neg cfg ffun afun regex_match); assumption].
+    intros Hs Hsm. destruct x as [y|i|i o lit|i|d]; cbn [fseg nav1f fstep_ok] in *; [| | |apply (sp_neg cfg ffun afun regex_match); assumption|apply (sp_fq cfg parse_float ffun afun regex_match); assumption].
     - apply (sp_seg ffun afun regex_match); assumption.
     - apply (sp_filt cfg ffun afun regex_match); assumption.
     - apply andb_true_iff in Hs. destruct Hs as [Hs _]. apply andb_true_iff in Hs. destruct Hs as [Hs _].
@@ -72,25 +74,27 @@ Section FiltChainAddr.
       destruct (reaches i y); [|contradiction]. destruct Hk as [E|[]]. inversion E; subst. eapply small_obj_lookup; eassumption.
   Qed.
   Lemma nav1f_small x p v : small v -> Forall (fun lv => small (snd lv)) (nav1f x (p, v)).
-  Proof. intros Hsm. destruct x as [y|i|i o lit|i]; cbn [nav1f]; [apply nav1r_small|apply navf_small|apply navp_small|apply navp_small]; exact Hsm. Qed.
+  Proof. intros Hsm. destruct x as [y|i|i o lit|i|d]; cbn [nav1f]; [apply nav1r_small|apply navf_small|apply navp_small|apply navp_small|apply navp_small]; exact Hsm. Qed.
 
   Lemma fin_fpres_f x r : exists b1 b2, fin (fpres cfg parse_float (x :: r)) = OSome (fseg x b1 b2 (fin (fpres cfg parse_float r))) /\ accessor b2 = cfg_accessor cfg.
   Proof.
-    unfold fpres. cbn [flat_map]. destruct x as [[s|s]|i|i o lit|i]; cbn [fpre_of rstep_pre app fin fst snd fseg ChainAddr.seg].
+    unfold fpres. cbn [flat_map]. destruct x as [[s|s]|i|i o lit|i|d]; cbn [fpre_of rstep_pre app fin fst snd fseg ChainAddr.seg].
     - eexists (pre_basic cfg s), _. split; reflexivity.
     - eexists _, _. split; [reflexivity|]. destruct s as [q k|k|ds|[|]|sa sb sc|u us]; reflexivity.
     - eexists (filt_basic cfg i), _. split; reflexivity.
     - eexists (filt_basic cfg i), _. split; reflexivity.
     - eexists (filt_basic cfg i), _. split; reflexivity.
+    - eexists (fq_basic cfg d), _. split; reflexivity.
   Qed.
   Lemma fchain_node_seg x r : exists b1 b2, fchain_node cfg parse_float (x :: r) = fseg x b1 b2 (fin (fpres cfg parse_float r)) /\ accessor b2 = cfg_accessor cfg.
   Proof.
-    unfold fchain_node, node_of, fpres. cbn [flat_map]. destruct x as [[s|s]|i|i o lit|i]; cbn [fpre_of rstep_pre app fin fst snd fseg ChainAddr.seg].
+    unfold fchain_node, node_of, fpres. cbn [flat_map]. destruct x as [[s|s]|i|i o lit|i|d]; cbn [fpre_of rstep_pre app fin fst snd fseg ChainAddr.seg].
     - eexists (pre_basic cfg s), _. split; reflexivity.
     - eexists _, _. split; [reflexivity|]. destruct s as [q k|k|ds|[|]|sa sb sc|u us]; reflexivity.
     - eexists (filt_basic cfg i), _. split; reflexivity.
     - eexists (filt_basic cfg i), _. split; reflexivity.
     - eexists (filt_basic cfg i), _. split; reflexivity.
+    - eexists (fq_basic cfg d), _. split; reflexivity.
   Qed.
 
   Lemma sp_fchain : forall r x b1 b2, forallb fstep_ok (x :: r) = true -> accessor b2 = cfg_accessor cfg ->
